@@ -1,17 +1,15 @@
 (** C04 - repository migration: proofs about the model of ca/Migrate.v.
 
-    Main results
-    - [migration_safe]: in every state reachable by any sequence of operations, no key set of any class publishes
-      at a repository that is on the deprecated list (so the clean-up never withdraws live objects);
-    - [weak_has_old_repo_refuted]: with the Staging arm of [has_old_repo] looking at the staging set only, the
-      statement is false (two classes, one finishes while the other is staged);
-    - [migration_safe_needs_admissible_refuted]: it is also false if a migration may target a repository that
-      still awaits its clean-up (nothing in the code forbids that);
-    - [migration_located] / [located_refuted]: every set publishes where its key's certificate points, as long
-      as no certificate is re-issued for a key that is still tied to the old repository - and not otherwise;
+    Main results (no assumption about the environment: [reachable] is closed under every accepted operation)
+    - [migration_safe]: in every reachable state no key set of any class publishes at a repository that is on the
+      deprecated list (so the clean-up never withdraws live objects);
+    - [migration_located]: in every reachable state every set publishes where its key's certificate points;
+    - regression witnesses: [weak_has_old_repo_refuted] (Staging arm of [has_old_repo] looking at the staging set
+      only), [pinned_deprecated_refuted] (a migration leaving its target on the deprecated list, F04e),
+      [pinned_key_refuted] (a re-issued certificate naming the new repository for a key tied to the old one, F04d);
     - [last_user_deprecates], [old_repo_deprecated_when_done]: the step that takes the last set away from a
       repository puts that repository on the deprecated list; once every class has finished its roll the old
-      repository is deprecated (or already cleaned). *)
+      repository is deprecated, or already cleaned, or has become the current repository again. *)
 From KV Require Import base.Tac ca.Migrate ca.MigrateCheck.
 Open Scope N_scope.
 
@@ -219,11 +217,12 @@ Proof.
 Qed.
 
 Lemma inv_update_repo : forall st r,
-  Inv st -> ~ In r (m_depr st) -> r <> m_repo st ->
+  Inv st -> r <> m_repo st ->
   forallb (fun kv => idle (snd kv)) (m_classes st) = true ->
-  Inv (mkM r (map (fun kv => (fst kv, start_roll r (class_set_old (m_repo st) (snd kv)))) (m_classes st)) (m_depr st)).
+  Inv (mkM r (map (fun kv => (fst kv, start_roll r (class_set_old (m_repo st) (snd kv)))) (m_classes st))
+           (filter (fun x => negb (x =? r)) (m_depr st))).
 Proof.
-  intros st r HI Hnd Hne Hidle. constructor; cbn [m_classes m_repo m_depr].
+  intros st r HI Hne Hidle. constructor; cbn [m_classes m_repo m_depr].
   - intros k v1 v2 H1 H2.
     destruct (update_entry st r k v1 (inv_fresh st HI) Hidle H1) as (c1 & Hc1 & _ & ->).
     destruct (update_entry st r k v2 (inv_fresh st HI) Hidle H2) as (c2 & Hc2 & _ & ->).
@@ -233,8 +232,8 @@ Proof.
     cbn in Hs. destruct Hs as [<-|[]]. cbn in Ho. inv Ho. intros E. apply Hne. symmetry. exact E.
   - intros k cs Hk.
     destruct (update_entry st r k cs (inv_fresh st HI) Hidle Hk) as (c1 & Hc1 & _ & ->). exact I.
-  - intros x Hx ->. exact (Hnd Hx).
-  - intros x k cs s Hx Hk Hs Ho.
+  - intros x Hx ->. apply filter_In in Hx. destruct Hx as [_ Hx]. rewrite N.eqb_refl in Hx. discriminate.
+  - intros x k cs s Hx Hk Hs Ho. apply filter_In in Hx. destruct Hx as [Hx _].
     destruct (update_entry st r k cs (inv_fresh st HI) Hidle Hk) as (c1 & Hc1 & _ & ->).
     cbn in Hs. destruct Hs as [<-|[]]. cbn in Ho. inv Ho.
     exact (inv_depr st HI _ Hx eq_refl).
@@ -251,9 +250,10 @@ Proof.
 Qed.
 
 (** Every operation keeps the invariant. *)
-Theorem inv_step : forall st op st', Inv st -> admissible st op -> mstep st op = Some st' -> Inv st'.
+Theorem inv_step : forall st op st', Inv st -> mstep st op = Some st' -> Inv st'.
 Proof.
-  intros st op st' HI Hadm Hstep. unfold mstep, mstep_gen in Hstep.
+  intros st op st' HI Hstep. unfold mstep, mstep_gen in Hstep.
+  cbn [fixed v_hor v_reissue_keeps v_undeprecate] in Hstep.
   destruct op as [c|c|c|r|c|c|c|c|c w|r].
   - (* ONewClass *)
     destruct (cget c (m_classes st)) as [cs|] eqn:Eg; [discriminate|]. inv Hstep.
@@ -270,7 +270,7 @@ Proof.
   - (* OUpdateRepo *)
     destruct (r =? m_repo st) eqn:Er; [discriminate|].
     destruct (forallb (fun kv => idle (snd kv)) (m_classes st)) eqn:Eidle; [|discriminate]. inv Hstep.
-    apply inv_update_repo; [exact HI|exact Hadm| |exact Eidle].
+    apply inv_update_repo; [exact HI| |exact Eidle].
     intros ->. rewrite N.eqb_refl in Er. discriminate.
   - (* OStage *)
     destruct (cget c (m_classes st)) as [[q|[p|] cu|sg cu|cu o]|] eqn:Eg; try discriminate. inv Hstep.
@@ -312,7 +312,7 @@ Proof.
       * exact (inv_old st HI _ _ cu r Eg (or_introl eq_refl) Eo).
   - (* OReissue *)
     destruct (cget c (m_classes st)) as [cs|] eqn:Eg; [|discriminate].
-    destruct (reissue (m_repo st) cs w) as [cs'|] eqn:Er; [|discriminate]. inv Hstep.
+    destruct (reissue true (m_repo st) cs w) as [cs'|] eqn:Er; [|discriminate]. inv Hstep.
     apply cget_In in Eg. pose proof (inv_fresh st HI _ _ Eg) as Hf.
     destruct cs as [q|p cu|sg cu|cu o]; destruct w; cbn in Er; try discriminate; inv Er.
     + apply inv_cset; [exact HI| |destruct p; exact Hf].
@@ -339,14 +339,14 @@ Qed.
 
 Theorem reachable_inv : forall r0 st, reachable r0 st -> Inv st.
 Proof.
-  intros r0 st H. induction H as [|st op st' Hr IH Hadm Hstep].
+  intros r0 st H. unfold reachable in H. induction H as [|st op st' Hr IH Hstep].
   - apply inv_init.
-  - exact (inv_step st op st' IH Hadm Hstep).
+  - exact (inv_step st op st' IH Hstep).
 Qed.
 
-(** The safety theorem: whatever the interleaving of migrations, roll steps of the classes, class additions and
-    removals, certificate re-issues and clean-ups, a repository on the deprecated list is not the place where any
-    key set of any class publishes. *)
+(** The safety theorem: whatever the interleaving of migrations (also back to a repository that still awaits its
+    clean-up), roll steps of the classes, class additions and removals, certificate re-issues and clean-ups, a
+    repository on the deprecated list is not the place where any key set of any class publishes. *)
 Theorem migration_safe : forall r0 st, reachable r0 st -> safe st.
 Proof. intros r0 st H. apply inv_safe. exact (reachable_inv r0 st H). Qed.
 
@@ -377,9 +377,10 @@ Proof.
 Qed.
 
 Theorem loc_step : forall st op st',
-  Inv st -> located st -> admissible_loc st op -> mstep st op = Some st' -> located st'.
+  Inv st -> located st -> mstep st op = Some st' -> located st'.
 Proof.
-  intros st op st' HI HL Hadm Hstep. unfold mstep, mstep_gen in Hstep.
+  intros st op st' HI HL Hstep. unfold mstep, mstep_gen in Hstep.
+  cbn [fixed v_hor v_reissue_keeps v_undeprecate] in Hstep.
   destruct op as [c|c|c|r|c|c|c|c|c w|r].
   - destruct (cget c (m_classes st)) as [cs|] eqn:Eg; [discriminate|]. inv Hstep.
     apply loc_cset; [exact HL| |reflexivity]. intros s [].
@@ -417,11 +418,9 @@ Proof.
     pose proof (loc_cdel st c HL) as H1.
     destruct (class_old_repo cs); [apply loc_deprecate|]; exact H1.
   - destruct (cget c (m_classes st)) as [cs|] eqn:Eg; [|discriminate].
-    destruct (reissue (m_repo st) cs w) as [cs'|] eqn:Er; [|discriminate]. inv Hstep.
-    cbn in Hadm. specialize (Hadm cs).
+    destruct (reissue true (m_repo st) cs w) as [cs'|] eqn:Er; [|discriminate]. inv Hstep.
     apply cget_In in Eg as Hin. destruct (HL _ _ Hin) as [Hs Hp].
-    destruct cs as [q|p cu|sg cu|cu o]; destruct w; cbn in Er; try discriminate; inv Er;
-      cbn in Hadm; specialize (Hadm _ Eg eq_refl); rewrite Hadm.
+    destruct cs as [q|p cu|sg cu|cu o]; destruct w; cbn in Er; try discriminate; inv Er.
     + apply loc_cset; [exact HL| |exact Hp]. intros s [<-|[]]. reflexivity.
     + apply loc_cset; [exact HL| |exact I]. intros s [<-|[<-|[]]]; [apply Hs; cbn; auto|reflexivity].
     + apply loc_cset; [exact HL| |exact I]. intros s [<-|[<-|[]]]; [reflexivity|apply Hs; cbn; auto].
@@ -433,17 +432,14 @@ Qed.
 Lemma loc_init : forall r0, located (minit r0).
 Proof. intros r0 c cs []. Qed.
 
-Lemma reachable_loc_reachable : forall r0 st, reachable_loc r0 st -> reachable r0 st.
+(** Every set publishes at the repository that its key's certificate points to - in every reachable state, also
+    when certificates are re-issued in the middle of a migration. *)
+Theorem migration_located : forall r0 st, reachable r0 st -> located st.
 Proof.
-  intros r0 st H. induction H as [|st op st' _ IH Ha _ Hs]; [constructor|].
-  exact (reach_step r0 st op st' IH Ha Hs).
-Qed.
-
-Theorem migration_located : forall r0 st, reachable_loc r0 st -> located st.
-Proof.
-  intros r0 st H. induction H as [|st op st' Hr IH Ha Hl Hs].
+  intros r0 st H. pose proof (reachable_inv r0 st H) as HI. revert HI.
+  unfold reachable in H. induction H as [|st op st' Hr IH Hs]; intros HI.
   - apply loc_init.
-  - exact (loc_step st op st' (reachable_inv r0 st (reachable_loc_reachable r0 st Hr)) IH Hl Hs).
+  - pose proof (reachable_inv r0 st Hr) as HI0. exact (loc_step st op st' HI0 (IH HI0) Hs).
 Qed.
 
 (** * The old repository is handed to the clean-up exactly when its last user leaves *)
@@ -512,7 +508,7 @@ Theorem last_user_deprecates : forall st op st' x,
   Inv st -> mstep st op = Some st' -> uses st x -> ~ uses st' x -> In x (m_depr st').
 Proof.
   intros st op st' x HI Hstep Hu Hnu. pose proof (inv_fun st HI) as Hfun.
-  unfold mstep, mstep_gen in Hstep.
+  unfold mstep, mstep_gen in Hstep. cbn [fixed v_hor v_reissue_keeps v_undeprecate] in Hstep.
   destruct op as [c|c|c|r|c|c|c|c|c w|r].
   - destruct (cget c (m_classes st)) as [cs|] eqn:Eg; [discriminate|]. inv Hstep.
     exfalso. apply Hnu. apply uses_cset; [exact Hfun| |exact Hu].
@@ -564,7 +560,7 @@ Proof.
       destruct (class_old_repo cs); [|exact Hu1].
       apply (uses_same_classes st1); [apply deprecate_classes|exact Hu1].
   - destruct (cget c (m_classes st)) as [cs|] eqn:Eg; [|discriminate].
-    destruct (reissue (m_repo st) cs w) as [cs'|] eqn:Er; [|discriminate]. inv Hstep.
+    destruct (reissue true (m_repo st) cs w) as [cs'|] eqn:Er; [|discriminate]. inv Hstep.
     exfalso. apply Hnu. apply (uses_replace st c _ _ x Hfun Eg); [|exact Hu].
     destruct cs as [q|p cu|sg cu|cu o]; destruct w; cbn in Er; try discriminate; inv Er.
     + intros s [<-|[]] Ho. eexists. split; [left; reflexivity|exact Ho].
@@ -593,17 +589,23 @@ Proof.
   cbn in Hs, Hf. destruct Hs as [<-|[]]. rewrite Hf in Ho. discriminate.
 Qed.
 
-(** Only the clean-up takes a repository off the deprecated list. *)
+(** Only the clean-up, and a migration to that very repository, take a repository off the deprecated list. *)
 Lemma depr_kept : forall st op st' x,
-  mstep st op = Some st' -> In x (m_depr st) -> In x (m_depr st') \/ op = OClean x.
+  mstep st op = Some st' -> In x (m_depr st) -> In x (m_depr st') \/ op = OClean x \/ op = OUpdateRepo x.
 Proof.
   intros st op st' x Hstep Hx. unfold mstep, mstep_gen in Hstep.
+  cbn [fixed v_hor v_reissue_keeps v_undeprecate] in Hstep.
+  assert (Hfilter : forall r, In x (filter (fun y => negb (y =? r)) (m_depr st)) \/ x = r).
+  { intros r. destruct (N.eq_dec x r) as [->|Hne]; [right; reflexivity|left].
+    apply filter_In. split; [exact Hx|]. destruct (x =? r) eqn:E; [|reflexivity].
+    apply N.eqb_eq in E. contradiction. }
   destruct op as [c|c|c|r|c|c|c|c|c w|r].
   - destruct (cget c (m_classes st)); [discriminate|]. inv Hstep. left. exact Hx.
   - destruct (cget c (m_classes st)) as [[q|p cu|sg cu|cu o]|]; try discriminate. inv Hstep. left. exact Hx.
   - destruct (cget c (m_classes st)) as [[q|[p|] cu|sg cu|cu o]|]; try discriminate. inv Hstep. left. exact Hx.
   - destruct (r =? m_repo st); [discriminate|].
-    destruct (forallb (fun kv => idle (snd kv)) (m_classes st)); [|discriminate]. inv Hstep. left. exact Hx.
+    destruct (forallb (fun kv => idle (snd kv)) (m_classes st)); [|discriminate]. inv Hstep. cbn [m_depr].
+    destruct (Hfilter r) as [H| ->]; [left; exact H|right; right; reflexivity].
   - destruct (cget c (m_classes st)) as [[q|[p|] cu|sg cu|cu o]|]; try discriminate. inv Hstep. left. exact Hx.
   - destruct (cget c (m_classes st)) as [[q|p cu|sg cu|cu o]|]; try discriminate. inv Hstep. left. exact Hx.
   - destruct (cget c (m_classes st)) as [[q|p cu|sg cu|cu o]|]; try discriminate. inv Hstep. left.
@@ -611,54 +613,53 @@ Proof.
   - destruct (cget c (m_classes st)) as [cs|]; [|discriminate]. inv Hstep. left.
     destruct (class_old_repo cs); [apply depr_mono_deprecate|]; exact Hx.
   - destruct (cget c (m_classes st)) as [cs|]; [|discriminate].
-    destruct (reissue (m_repo st) cs w); [|discriminate]. inv Hstep. left. exact Hx.
-  - inv Hstep. cbn [m_depr]. destruct (N.eq_dec x r) as [->|Hne].
-    + right. reflexivity.
-    + left. apply filter_In. split; [exact Hx|]. destruct (x =? r) eqn:E; [|reflexivity].
-      apply N.eqb_eq in E. contradiction.
+    destruct (reissue true (m_repo st) cs w); [|discriminate]. inv Hstep. left. exact Hx.
+  - inv Hstep. cbn [m_depr]. destruct (Hfilter r) as [H| ->]; [left; exact H|right; left; reflexivity].
 Qed.
 
-Fixpoint all_admissible (st : mstate) (ops : list mop) : Prop :=
-  match ops with
-  | [] => True
-  | op :: r => admissible st op /\ match mstep st op with Some st' => all_admissible st' r | None => True end
-  end.
-
-Theorem inv_run : forall ops st st', Inv st -> all_admissible st ops -> run st ops = Some st' -> Inv st'.
+Theorem inv_run : forall ops st st', Inv st -> run st ops = Some st' -> Inv st'.
 Proof.
-  induction ops as [|op r IH]; intros st st' HI Hadm Hrun; cbn in Hrun.
+  induction ops as [|op r IH]; intros st st' HI Hrun; cbn in Hrun.
   - inv Hrun. exact HI.
-  - fold mstep in Hrun. destruct Hadm as [Ha Hr].
-    destruct (mstep st op) as [st1|] eqn:E; [|discriminate].
-    exact (IH st1 st' (inv_step st op st1 HI Ha E) Hr Hrun).
+  - fold mstep in Hrun. destruct (mstep st op) as [st1|] eqn:E; [|discriminate].
+    exact (IH st1 st' (inv_step st op st1 HI E) Hrun).
+Qed.
+
+Theorem loc_run : forall ops st st', Inv st -> located st -> run st ops = Some st' -> located st'.
+Proof.
+  induction ops as [|op r IH]; intros st st' HI HL Hrun; cbn in Hrun.
+  - inv Hrun. exact HL.
+  - fold mstep in Hrun. destruct (mstep st op) as [st1|] eqn:E; [|discriminate].
+    exact (IH st1 st' (inv_step st op st1 HI E) (loc_step st op st1 HI HL E) Hrun).
 Qed.
 
 Lemma depr_kept_run : forall ops st st' x,
-  run st ops = Some st' -> In x (m_depr st) -> In x (m_depr st') \/ In (OClean x) ops.
+  run st ops = Some st' -> In x (m_depr st) -> In x (m_depr st') \/ In (OClean x) ops \/ In (OUpdateRepo x) ops.
 Proof.
   induction ops as [|op r IH]; intros st st' x Hrun Hx; cbn in Hrun.
   - inv Hrun. left. exact Hx.
   - fold mstep in Hrun. destruct (mstep st op) as [st1|] eqn:E; [|discriminate].
-    destruct (depr_kept st op st1 x E Hx) as [H| ->].
-    + destruct (IH st1 st' x Hrun H) as [H'|H']; [left; exact H'|right; right; exact H'].
-    + right. left. reflexivity.
+    destruct (depr_kept st op st1 x E Hx) as [H|[-> | ->]].
+    + destruct (IH st1 st' x Hrun H) as [H'|[H'|H']]; [left; exact H'|right; left; right; exact H'|right; right; right; exact H'].
+    + right. left. left. reflexivity.
+    + right. right. left. reflexivity.
 Qed.
 
 (** The migration completes: from a state in which some set is still tied to repository x (the repository the CA
     migrated away from), any continuation after which every class is back to a single active key has put x on
     the deprecated list - where the next repository synchronisation empties it - unless that clean-up has
-    already happened on the way. *)
+    already happened on the way or x has become the CA's repository again. *)
 Theorem old_repo_deprecated_when_done : forall ops st st' x,
-  Inv st -> all_admissible st ops -> run st ops = Some st' ->
+  Inv st -> run st ops = Some st' ->
   uses st x ->
   (forall c cs, In (c, cs) (m_classes st') -> finished cs) ->
-  In x (m_depr st') \/ In (OClean x) ops.
+  In x (m_depr st') \/ In (OClean x) ops \/ In (OUpdateRepo x) ops.
 Proof.
-  induction ops as [|op r IH]; intros st st' x HI Hadm Hrun Hu Hfin; cbn in Hrun.
+  induction ops as [|op r IH]; intros st st' x HI Hrun Hu Hfin; cbn in Hrun.
   - inv Hrun. exfalso. exact (finished_no_old_user st' x HI Hfin Hu).
-  - fold mstep in Hrun. destruct Hadm as [Ha Hr].
+  - fold mstep in Hrun.
     destruct (mstep st op) as [st1|] eqn:E; [|discriminate].
-    pose proof (inv_step st op st1 HI Ha E) as HI1.
+    pose proof (inv_step st op st1 HI E) as HI1.
     assert (Hdec : uses st1 x \/ In x (m_depr st1)).
     { destruct (existsb (fun kv => class_has_old_repo (snd kv) x) (m_classes st1)) eqn:Ex.
       - left. apply existsb_exists in Ex. destruct Ex as ([k cs] & Hk & Hh). cbn [snd] in Hh.
@@ -666,9 +667,12 @@ Proof.
       - right. apply (last_user_deprecates st op st1 x HI E Hu).
         intros (k & cs & s & Hk & Hs & Ho). rewrite existsb_false in Ex.
         specialize (Ex (k, cs) Hk). cbn [snd] in Ex. exact (has_old_repo_false cs x Ex s Hs Ho). }
-    destruct Hdec as [Hu1|Hd1].
-    + destruct (IH st1 st' x HI1 Hr Hrun Hu1 Hfin) as [H|H]; [left; exact H|right; right; exact H].
-    + destruct (depr_kept_run r st1 st' x Hrun Hd1) as [H|H]; [left; exact H|right; right; exact H].
+    assert (Hlift : In x (m_depr st') \/ In (OClean x) r \/ In (OUpdateRepo x) r ->
+                    In x (m_depr st') \/ In (OClean x) (op :: r) \/ In (OUpdateRepo x) (op :: r)).
+    { intros [H|[H|H]]; [left; exact H|right; left; right; exact H|right; right; right; exact H]. }
+    apply Hlift. destruct Hdec as [Hu1|Hd1].
+    + exact (IH st1 st' x HI1 Hrun Hu1 Hfin).
+    + exact (depr_kept_run r st1 st' x Hrun Hd1).
 Qed.
 
 (** * Witnesses *)
@@ -691,77 +695,68 @@ Example critical_schedule_nonvacuous :
     = Some (mkM 1 [(0, MCur None (mkSet None 1)); (1, MCur None (mkSet None 1))] []).
 Proof. vm_compute. repeat split. Qed.
 
-Lemma run_reachable : forall r0 ops st st', reachable r0 st -> all_admissible st ops -> run st ops = Some st' -> reachable r0 st'.
+Lemma run_reachable_gen : forall v r0 ops st st', reachable_gen v r0 st -> run_gen v st ops = Some st' -> reachable_gen v r0 st'.
 Proof.
-  intros r0 ops. induction ops as [|op r IH]; intros st st' Hr Hadm Hrun; cbn in Hrun.
+  intros v r0 ops. induction ops as [|op r IH]; intros st st' Hr Hrun; cbn in Hrun.
   - inv Hrun. exact Hr.
-  - fold mstep in Hrun. destruct Hadm as [Ha Hrest].
-    destruct (mstep st op) as [st1|] eqn:E; [|discriminate].
-    exact (IH st1 st' (reach_step r0 st op st1 Hr Ha E) Hrest Hrun).
+  - destruct (mstep_gen v st op) as [st1|] eqn:E; [|discriminate].
+    exact (IH st1 st' (reach_step v r0 st op st1 Hr E) Hrun).
 Qed.
 
 Example critical_state_reachable :
   reachable 0 (mkM 1 [(0, MCur None (mkSet None 1)); (1, MStg (mkSet None 1) (mkSet (Some 0) 0))] []).
 Proof.
-  apply (run_reachable 0 critical_ops (minit 0)); [constructor| |vm_compute; reflexivity].
-  cbn. repeat split; intros [].
+  apply (run_reachable_gen fixed 0 critical_ops (minit 0)); [constructor|vm_compute; reflexivity].
 Qed.
 
 (** With the Staging arm of [has_old_repo] looking at the staging set only, the same schedule puts repository 0 on
     the deprecated list while the active key of class 1 publishes everything there: the theorem depends on that
     arm. *)
 Theorem weak_has_old_repo_refuted :
-  exists st, run_weak (minit 0) critical_ops = Some st /\ ~ safe st.
+  exists st, run_gen weak (minit 0) critical_ops = Some st /\ ~ safe st.
 Proof.
   eexists. split; [vm_compute; reflexivity|].
   intros H. apply (H 0 1 (MStg (mkSet None 1) (mkSet (Some 0) 0)) (mkSet (Some 0) 0)); cbn; auto.
 Qed.
 
-(** Nothing in the code keeps a migration from going back to a repository that is still waiting for its clean-up;
-    then the new keys publish at a repository that the next synchronisation empties. *)
-Theorem migration_safe_needs_admissible_refuted :
-  exists st, reachable_any 0 st /\ ~ safe st.
+(** F04e: migrate 0 -> 1, finish, and go back to 0 before the clean-up of 0 has run; a class then stages its new key
+    at 0. Before /repo 1c1bdf32 repository 0 stayed on the deprecated list and the next synchronisation emptied it;
+    now the migration takes it off the list. *)
+Definition back_before_cleanup_ops : list mop :=
+  [ONewClass 0; OAddClass 0; OUpdateRepo 1; OStage 0; OActivate 0; OFinish 0; OUpdateRepo 0; OStage 0].
+
+Theorem pinned_deprecated_refuted :
+  exists st, reachable_gen pinned_depr 0 st /\ ~ safe st.
 Proof.
   exists (mkM 0 [(0, MStg (mkSet None 0) (mkSet (Some 1) 1))] [0]). split.
-  - assert (R : forall ops st st', reachable_any 0 st -> run st ops = Some st' -> reachable_any 0 st').
-    { induction ops as [|op r IH]; intros st st' Hr Hrun; cbn in Hrun.
-      - inv Hrun. exact Hr.
-      - fold mstep in Hrun. destruct (mstep st op) as [st1|] eqn:E; [|discriminate].
-        exact (IH st1 st' (reacha_step 0 st op st1 Hr E) Hrun). }
-    apply (R [ONewClass 0; OAddClass 0; OUpdateRepo 1; OStage 0; OActivate 0; OFinish 0; OUpdateRepo 0; OStage 0] (minit 0));
-      [constructor|vm_compute; reflexivity].
+  - apply (run_reachable_gen pinned_depr 0 back_before_cleanup_ops (minit 0)); [constructor|vm_compute; reflexivity].
   - intros H. apply (H 0 0 (MStg (mkSet None 0) (mkSet (Some 1) 1)) (mkSet None 0)); cbn; auto.
 Qed.
 
-(** A certificate re-issued during a migration for the key that still publishes at the old repository names the
-    new repository (the key-level [old_repo] is never set, see [reissue] in ca/Migrate.v). *)
-Theorem located_refuted :
-  exists st, reachable 0 st /\ ~ located st.
+Example back_before_cleanup_now_safe :
+  run (minit 0) back_before_cleanup_ops = Some (mkM 0 [(0, MStg (mkSet None 0) (mkSet (Some 1) 1))] []).
+Proof. vm_compute. reflexivity. Qed.
+
+(** F04d: a certificate re-issued during a migration for the key that still publishes at the old repository. Before
+    /repo c6a66d92 the key-level [old_repo] was never set and the new certificate named the new repository. *)
+Definition reissue_during_migration_ops : list mop :=
+  [ONewClass 0; OAddClass 0; OUpdateRepo 1; OReissue 0 WCur].
+
+Theorem pinned_key_refuted :
+  exists st, reachable_gen pinned_key 0 st /\ ~ located st.
 Proof.
   exists (mkM 1 [(0, MCur (Some 1) (mkSet (Some 0) 1))] []). split.
-  - apply (run_reachable 0 [ONewClass 0; OAddClass 0; OUpdateRepo 1; OReissue 0 WCur] (minit 0));
-      [constructor| |vm_compute; reflexivity].
-    cbn. repeat split; intros [].
+  - apply (run_reachable_gen pinned_key 0 reissue_during_migration_ops (minit 0)); [constructor|vm_compute; reflexivity].
   - intros H. destruct (H 0 _ (or_introl eq_refl)) as [Hs _].
     specialize (Hs (mkSet (Some 0) 1) (or_introl eq_refl)). cbn in Hs. discriminate.
 Qed.
 
-Example located_nonvacuous :
-  reachable_loc 0 (mkM 1 [(0, MStg (mkSet None 1) (mkSet (Some 0) 0))] []).
+Example reissue_during_migration_now_located :
+  run (minit 0) reissue_during_migration_ops = Some (mkM 1 [(0, MCur (Some 1) (mkSet (Some 0) 0))] [])
+  /\ reachable 0 (mkM 1 [(0, MCur (Some 1) (mkSet (Some 0) 0))] []).
 Proof.
-  assert (R : forall ops st st', reachable_loc 0 st ->
-              (fix adm st ops := match ops with [] => True | op :: r => admissible st op /\ admissible_loc st op /\
-                  match mstep st op with Some st1 => adm st1 r | None => True end end) st ops ->
-              run st ops = Some st' -> reachable_loc 0 st').
-  { induction ops as [|op r IH]; intros st st' Hr Hadm Hrun; cbn in Hrun.
-    - inv Hrun. exact Hr.
-    - fold mstep in Hrun. destruct Hadm as (Ha & Hl & Hrest).
-      destruct (mstep st op) as [st1|] eqn:E; [|discriminate].
-      exact (IH st1 st' (reachl_step 0 st op st1 Hr Ha Hl E) Hrest Hrun). }
-  apply (R [ONewClass 0; OAddClass 0; OUpdateRepo 1; OStage 0; OReissue 0 WStg] (minit 0));
-    [constructor| |vm_compute; reflexivity].
-  vm_compute. repeat split; try (intros H; contradiction).
-  intros cs s Hc Hs. inv Hc. cbn in Hs. inv Hs. reflexivity.
+  split; [vm_compute; reflexivity|].
+  apply (run_reachable_gen fixed 0 reissue_during_migration_ops (minit 0)); [constructor|vm_compute; reflexivity].
 Qed.
 
 (** * The executable invariant is the invariant *)
@@ -910,49 +905,47 @@ Qed.
 
 (** * Correspondence and theorem together *)
 
-Lemma admissible_b_sound : forall st op, admissible_b st op = true -> admissible st op.
-Proof.
-  intros st op H. destruct op; cbn in H |- *; try exact I.
-  intros Hin. apply negb_true_iff in H. rewrite existsb_false in H.
-  specialize (H r Hin). cbn in H. rewrite N.eqb_refl in H. discriminate.
-Qed.
-
-Lemma ops_adm_b_sound : forall ops st, ops_adm_b st ops = true -> all_admissible st ops.
-Proof.
-  induction ops as [|op r IH]; intros st H; cbn in H |- *; [exact I|].
-  apply andb_true_iff in H. destruct H as [H1 H2]. split; [apply admissible_b_sound; exact H1|].
-  destruct (mstep st op) as [st1|]; [apply IH; exact H2|exact I].
-Qed.
-
-Lemma cleans_admissible : forall l st, all_admissible st (map OClean l).
-Proof.
-  induction l as [|x r IH]; intros st; cbn; [exact I|]. split; [exact I|]. apply IH.
-Qed.
-
 (** If the model reproduces what the implementation did in a case and the case starts in a state that satisfies
     the invariant, the implementation's states after the command and after the synchronisation satisfy it too -
-    hence (by [inv_safe]) in neither of them a deprecated repository is one that a key set publishes at. *)
-Theorem agrees_keeps_invariant : forall c,
-  m_agrees c = true -> m_adm c = true -> Inv (mc_pre c) -> Inv (mc_mid c) /\ Inv (mc_post c).
+    hence (by [inv_safe]) in neither of them a deprecated repository is one that a key set publishes at; and
+    likewise for "published where the certificate points". *)
+Lemma agrees_runs : forall c, m_agrees c = true ->
+  run (mc_pre c) (mc_ops c) = Some (mc_mid c)
+  /\ (if mc_synced c then msync (mc_mid c) = Some (mc_post c) else mc_post c = mc_mid c).
 Proof.
-  intros c Hag Hadm HI. unfold m_agrees in Hag. apply andb_true_iff in Hag. destruct Hag as [H1 H2].
+  intros c Hag. unfold m_agrees in Hag. apply andb_true_iff in Hag. destruct Hag as [H1 H2].
   unfold ostate_eqb in H1. destruct (run (mc_pre c) (mc_ops c)) as [mid|] eqn:Erun; [|discriminate].
-  apply mstate_eqb_eq in H1. subst mid.
-  assert (Hmid : Inv (mc_mid c)).
-  { apply (inv_run (mc_ops c) (mc_pre c)); [exact HI|apply ops_adm_b_sound; exact Hadm|exact Erun]. }
-  split; [exact Hmid|].
+  apply mstate_eqb_eq in H1. subst mid. split; [reflexivity|].
   destruct (mc_synced c).
-  - unfold ostate_eqb, msync in H2.
-    destruct (run (mc_mid c) (map OClean (m_depr (mc_mid c)))) as [post|] eqn:Es; [|discriminate].
-    apply mstate_eqb_eq in H2. subst post.
-    exact (inv_run _ _ _ Hmid (cleans_admissible _ _) Es).
-  - apply mstate_eqb_eq in H2. rewrite <- H2. exact Hmid.
+  - unfold ostate_eqb in H2. destruct (msync (mc_mid c)) as [post|]; [|discriminate].
+    apply mstate_eqb_eq in H2. subst post. reflexivity.
+  - apply mstate_eqb_eq in H2. symmetry. exact H2.
+Qed.
+
+Theorem agrees_keeps_invariant : forall c,
+  m_agrees c = true -> Inv (mc_pre c) -> Inv (mc_mid c) /\ Inv (mc_post c).
+Proof.
+  intros c Hag HI. destruct (agrees_runs c Hag) as [Hrun Hs].
+  pose proof (inv_run _ _ _ HI Hrun) as Hmid. split; [exact Hmid|].
+  destruct (mc_synced c).
+  - unfold msync in Hs. exact (inv_run _ _ _ Hmid Hs).
+  - rewrite Hs. exact Hmid.
+Qed.
+
+Theorem agrees_keeps_located : forall c,
+  m_agrees c = true -> Inv (mc_pre c) -> located (mc_pre c) -> located (mc_mid c) /\ located (mc_post c).
+Proof.
+  intros c Hag HI HL. destruct (agrees_runs c Hag) as [Hrun Hs].
+  pose proof (inv_run _ _ _ HI Hrun) as Hmid. pose proof (loc_run _ _ _ HI HL Hrun) as Lmid. split; [exact Lmid|].
+  destruct (mc_synced c).
+  - unfold msync in Hs. exact (loc_run _ _ _ Hmid Lmid Hs).
+  - rewrite Hs. exact Lmid.
 Qed.
 
 Corollary agrees_keeps_safe : forall c,
-  m_agrees c = true -> m_adm c = true -> Inv (mc_pre c) -> safe (mc_mid c) /\ safe (mc_post c).
+  m_agrees c = true -> Inv (mc_pre c) -> safe (mc_mid c) /\ safe (mc_post c).
 Proof.
-  intros c H1 H2 H3. destruct (agrees_keeps_invariant c H1 H2 H3) as [Ha Hb].
+  intros c H1 H3. destruct (agrees_keeps_invariant c H1 H3) as [Ha Hb].
   split; apply inv_safe; assumption.
 Qed.
 
@@ -961,13 +954,13 @@ Example agrees_keeps_invariant_nonvacuous :
   let c := mkMC pre [OFinish 0] (mkM 1 [(0, MCur None (mkSet None 1)); (1, MStg (mkSet None 1) (mkSet (Some 0) 0))] [])
                 true (mkM 1 [(0, MCur None (mkSet None 1)); (1, MStg (mkSet None 1) (mkSet (Some 0) 0))] [])
                 [(0, true); (1, true)] [] in
-  m_agrees c = true /\ m_adm c = true /\ m_ok c = true /\ Inv pre
+  m_agrees c = true /\ m_ok c = true /\ Inv pre /\ located pre
   /\ (* what the seeded variant does instead is flagged *)
   m_ok (mkMC pre [OFinish 0] (mkM 1 [(0, MCur None (mkSet None 1)); (1, MStg (mkSet None 1) (mkSet (Some 0) 0))] [0])
              true (mkM 1 [(0, MCur None (mkSet None 1)); (1, MStg (mkSet None 1) (mkSet (Some 0) 0))] [])
              [(0, true); (1, false)] []) = false.
 Proof.
   cbv zeta. split; [vm_compute; reflexivity|]. split; [vm_compute; reflexivity|].
-  split; [vm_compute; reflexivity|]. split; [|vm_compute; reflexivity].
-  apply inv_b_spec. vm_compute. reflexivity.
+  split; [apply inv_b_spec; vm_compute; reflexivity|]. split; [apply located_b_spec; vm_compute; reflexivity|].
+  vm_compute. reflexivity.
 Qed.
